@@ -30,7 +30,8 @@ def FLOORS(tier):
          "JobSequencing:log_trick=True": 10, "JobSequencing:log_trick=False": 10, "weights:default": 100,
          "weights:just-above-threshold": 100, "spin-input-decoded": 300, "SetCover:zero-weight-subset": 7,
          "JobSequencing:dict-names:int": 4, "NumberPartitioning:large-integers": 7, "BILP:numpy-inputs": 10, "solve_bruteforce:positional-weights": 10,
-         "VertexCover:duplicate-orientation-or-self-loop": 6, "SetCover:star-overlap": 6}
+         "VertexCover:duplicate-orientation-or-self-loop": 6, "SetCover:star-overlap": 6,
+         "JobSequencing:dict-subclass": 2, "GraphPartitioning:isolated-vertex-as-self-loop": 4, "JobSequencing:raw-assignment-with-random-slack": 200, "convert_solution:flag-contradicts-form": 700}
     for c in CLASSES:
         f["class:" + c] = 30 if q else 1000
     return f
@@ -324,6 +325,12 @@ def do_JobSequencing(ctx, rng, w, bad, call):
                             (["a", 5, ("t", 1)])[:nj], [nj - i for i in range(nj)]])     # job names are the dict's keys: strings, ints from 1, gaps, mixed
         ctx.cat("JobSequencing:dict-names:" + ("str" if all(isinstance(x, str) for x in names) else ("int" if all(isinstance(x, int) for x in names) else "mixed")))
         jl = dict(zip(names, lengths))
+        if rng.random() < 0.35:
+            # "a dict": any dict -- OrderedDict, Counter, defaultdict hold the same names and lengths
+            import collections
+            kind_ = rng.choice(["OrderedDict", "Counter", "defaultdict"])
+            jl = {"OrderedDict": collections.OrderedDict(jl), "Counter": collections.Counter(jl), "defaultdict": collections.defaultdict(int, jl)}[kind_]
+            ctx.cat("JobSequencing:dict-subclass")
     else:
         jl = lengths if rng.random() < 0.5 else tuple(lengths)
     jobs = list(jl) if asdict else list(range(nj))
@@ -350,11 +357,24 @@ def do_JobSequencing(ctx, rng, w, bad, call):
     check_forms(ctx, rng, w, p, n, wl, cost, feas, opt, bad, call)
     for i in range(1 << nx):
         xb = bits(i, nx) + [0] * (n - nx)
+        if n > nx and rng.random() < 0.5:
+            xb = bits(i, nx) + [rng.choice((0, 1)) for _ in range(n - nx)]     # the slack part of a raw assignment is whatever the solver left there
+            ctx.cat("JobSequencing:raw-assignment-with-random-slack")
         ctx.count("is_solution_valid-checks")
         dec = call("convert_solution", p.convert_solution, containers(rng, xb, n))
         exp = tuple({jobs[ji] for ji in range(nj) if xb[ji * m + wk]} for wk in range(m))
         if dec != exp:
             bad("convert_solution-wrong", "convert_solution(%r) = %r expected %r" % (xb, dec, exp))
+        if rng.random() < 0.5:
+            # documented: the spin flag is only consulted for an all-ones assignment; otherwise the assignment tells its own form
+            zb = [1 - 2 * v for v in xb]
+            for raw_, flag_ in ((xb, True), (zb, False), (zb, None)):
+                if all(v == 1 for v in raw_):
+                    continue
+                ctx.count("convert_solution:flag-contradicts-form")
+                dec2 = call("convert_solution", p.convert_solution, containers(rng, raw_, n), **({} if flag_ is None else {"spin": flag_}))
+                if dec2 != exp:
+                    bad("convert_solution-wrong:flag-contradicts-form", "convert_solution(%r, spin=%r) = %r expected %r" % (raw_, flag_, dec2, exp))
         for arg, sp in ((containers(rng, xb, n), False), (dec, False), (containers(rng, [1 - 2 * v for v in xb], n), True)):
             got = call("is_solution_valid", p.is_solution_valid, arg, spin=sp) if sp else call("is_solution_valid", p.is_solution_valid, arg)
             if bool(got) != feas(xb):
@@ -387,9 +407,24 @@ def do_GraphPartitioning(ctx, rng, w, bad, call):
         for j in range(i + 1, N):
             if rng.random() < 0.55:
                 edges[(verts[i], verts[j])] = rng.choice([1, 2, 0.5]) if weighted else 1
+    loops = {}
     if {v for e in edges for v in e} != set(verts):
-        return
-    arg = dict(edges) if weighted else set(edges)
+        if rng.random() < 0.5:
+            return
+        # a vertex without a neighbour is declared by a self loop (it still has to go to one of the two halves)
+        for v in verts:
+            if v not in {x for e in edges for x in e}:
+                loops[(v, v)] = 1
+        ctx.cat("GraphPartitioning:isolated-vertex-as-self-loop")
+    elif rng.random() < 0.15:
+        loops[(verts[0], verts[0])] = 1             # a loop on a connected vertex never crosses the cut
+        ctx.cat("GraphPartitioning:self-loop")
+    arg = dict(edges, **{}) if weighted else set(edges)
+    if loops:
+        if weighted:
+            arg.update(loops)
+        else:
+            arg |= set(loops)
     w.update(edges=arg)
     p = call("init", L.problems.GraphPartitioning, arg)
     n = p.num_binary_variables
